@@ -91,4 +91,17 @@ var props = map[string]propSpec{
 		"the backend is a scripted transport behind a real httputil.ReverseProxy; the baseline for 'unchanged' is the same response relayed by a plain reverse proxy",
 		"an HTML document is a response whose Content-Type media type is text/html or application/xhtml+xml (case-insensitive); whether injection must happen for a given HTML reply is not demanded, only counted",
 	}},
+	"C15": {Level: "model_checking", Harnesses: []harnessSpec{
+		{Name: "bridge", Quick: 120, Thorough: 900, Args: []string{"-prop", "C15"}},
+	}, Assume: []string{
+		"tcp-bridge-frontend's main() and connection.Handler joined in one process; TCP is the in-memory stream fake (unbounded socket buffers), the websocket library the in-memory message fake",
+		"write plans of <=3 writes per direction with sizes {0,1,2,1024,1025,32768,32769,70000}, reader buffers {1,7,4096,65536}, both directions at once, 1-2 concurrent connections; schedules delay-bounded on the small plans, default schedule on the large ones",
+		"the pass-through of non-bridge HTTP requests through the real tcp-bridge-backend binary is not covered",
+	}},
+	"C16": {Level: "model_checking", Harnesses: []harnessSpec{
+		{Name: "bridge", Quick: 120, Thorough: 900, Args: []string{"-prop", "C16"}},
+	}, Assume: []string{
+		"'within bounded time' is decided at quiescence: no thread can run any more and the peer still has not seen end-of-stream",
+		"histories of length <=3 (quick) / 4 (thorough) over {client write, server write, client close, server close, large client write}, plus an unreachable TCP server",
+	}},
 }
